@@ -106,6 +106,19 @@ def _raw_array(val):
         return np.array(val, dtype=object)
     return np.asarray(val)
 
+def _accum_cast(x, n_bits, y=None):
+    """
+    The raw array(s) handed to an accumulating NumPy reduction (sum, cumsum, trace, prod, cumprod, dot) whose exact result may
+    need `n_bits` bits: Python integers when that does not fit in int64 (NumPy would accumulate in int64 / uint64 and wrap
+    silently), or when an int64 and an uint64 operand would be promoted to float64 beyond its 53 bits (see _raw_cast).
+    """
+    raw_cast = _raw_cast(x, x if y is None else y, n_bits)
+    return raw_cast(x.val) if y is None else (raw_cast(x.val), raw_cast(y.val))
+
+def _growth_bits(n):
+    # the bits by which the sum of n terms can grow
+    return int(np.ceil(np.log2(n))) if n > 1 else 0
+
 def _signed_value(val, n_bits=0):
     """
     The integer value(s) of an object with an integer value type, as handed to a NumPy function by the value ('repr') method:
@@ -628,7 +641,7 @@ def sum(x, axis=None, out=None, out_like=None, sizing='optimal', method='raw', *
     """
     def _sum_raw(x, n_frac, **kwargs):
         precision_cast = (lambda m: np.array(m, dtype=object)) if n_frac >= _n_word_max else (lambda m: m)
-        return _rescale_raw(np.sum(x.val, **kwargs), n_frac - x.n_frac, n_frac)
+        return _rescale_raw(np.sum(_accum_cast(x, x.n_word + _growth_bits(x.size)), **kwargs), n_frac - x.n_frac, n_frac)
 
     if not isinstance(x, Fxp):
         x = Fxp(x)
@@ -648,7 +661,7 @@ def cumsum(x, axis=None, out=None, out_like=None, sizing='optimal', method='raw'
     """
     def _cumsum_raw(x, n_frac, **kwargs):
         precision_cast = (lambda m: np.array(m, dtype=object)) if n_frac >= _n_word_max else (lambda m: m)
-        return _rescale_raw(np.cumsum(x.val, **kwargs), n_frac - x.n_frac, n_frac)
+        return _rescale_raw(np.cumsum(_accum_cast(x, x.n_word + _growth_bits(x.size)), **kwargs), n_frac - x.n_frac, n_frac)
 
     if not isinstance(x, Fxp):
         x = Fxp(x)
@@ -671,7 +684,7 @@ def cumprod(x, axis=None, out=None, out_like=None, sizing='optimal', method='raw
         precision_cast = (lambda m: np.array(m, dtype=object)) if n_frac >= _n_word_max else (lambda m: m)
         pow_vals = n_frac - np.cumsum(np.ones_like(np.array(x)), axis=axis).astype(int)  * x.n_frac
         conv_factors = utils.int_array([2**pow_val for pow_val in precision_cast(pow_vals)])
-        return np.cumprod(x.val, **kwargs) * conv_factors
+        return np.cumprod(_accum_cast(x, x.n_word * max(x.size, 1)), **kwargs) * conv_factors
 
     if not isinstance(x, Fxp):
         x = Fxp(x)
@@ -771,7 +784,7 @@ def trace(a, offset=0, axis1=0, axis2=1, out=None, out_like=None, sizing='optima
     """
     def _trace_raw(x, n_frac, **kwargs):
         precision_cast = (lambda m: np.array(m, dtype=object)) if n_frac >= _n_word_max else (lambda m: m)
-        return _rescale_raw(np.trace(x.val, **kwargs), n_frac - x.n_frac, n_frac)
+        return _rescale_raw(np.trace(_accum_cast(x, x.n_word + _growth_bits(x.size)), **kwargs), n_frac - x.n_frac, n_frac)
 
     if not isinstance(a, Fxp):
         a = Fxp(a)
@@ -803,7 +816,7 @@ def prod(a, axis=None, out=None, out_like=None, sizing='optimal', method='raw', 
     def _prod_raw(x, n_frac, axis=None, **kwargs):
         precision_cast = (lambda m: np.array(m, dtype=object)) if n_frac >= _n_word_max else (lambda m: m)
         num_of_products = _num_of_products(a, axis)
-        return _rescale_raw(np.prod(x.val, axis=axis, **kwargs), n_frac - num_of_products * x.n_frac, n_frac)
+        return _rescale_raw(np.prod(_accum_cast(x, x.n_word * max(num_of_products, 1)), axis=axis, **kwargs), n_frac - num_of_products * x.n_frac, n_frac)
 
     if not isinstance(a, Fxp):
         a = Fxp(a)
@@ -824,7 +837,7 @@ def dot(x, y, out=None, out_like=None, sizing='optimal', method='raw', **kwargs)
     """
     def _dot_raw(x, y, n_frac, **kwargs):
         precision_cast = (lambda m: np.array(m, dtype=object)) if n_frac >= _n_word_max else (lambda m: m)
-        return _rescale_raw(np.dot(x.val, y.val, **kwargs), n_frac - x.n_frac - y.n_frac, n_frac)
+        return _rescale_raw(np.dot(*_accum_cast(x, x.n_word + y.n_word + _growth_bits(x.shape[-1] if x.ndim else 1), y), **kwargs), n_frac - x.n_frac - y.n_frac, n_frac)
 
     if not isinstance(x, Fxp):
         x = Fxp(x)
